@@ -1,5 +1,6 @@
 SPECIFICATION Spec
 CONSTANTS
+  SampleT = 1
   N = 8
   OorD = {0, 1, 7, 8, 1000000}
   UpdIdx = {0, 3, 7}
